@@ -345,9 +345,11 @@ Definition get_region (p : para) (rs : list region) : list region * (Z * Z) :=
 
 (* ------------------------------------------------------------------ to_paragraph *)
 Inductive child := CBr | CSpan (b : option tcv) (st : tstyle) (tx : text).
-(* a pushed paragraph; o_paint records whether span begins are made relative (caption style PaintOn) *)
+(* a pushed paragraph; o_paint records whether span begins are made relative (caption style PaintOn);
+   o_origin is a ghost field (not part of the document): the paragraph's own origin in cells at the moment it
+   was pushed, from which the trigger of the finding "attached to a region above" is computed *)
 Record outp := mkO { o_id : option Z ; o_begin : option tcv ; o_end : option tcv ; o_region : Z * Z ;
-                     o_align : option Z ; o_paint : bool ; o_children : list child }.
+                     o_align : option Z ; o_paint : bool ; o_children : list child ; o_origin : Z * Z }.
 Fixpoint brs (n : nat) : list child := match n with O => [] | S k => CBr :: brs k end.
 Definition line_spans (l : cline) : list child :=
   flat_map (fun t => if is_nil (t_text t) then [] else
@@ -361,7 +363,8 @@ Fixpoint para_children (d : list (Z * cline)) (last : option Z) : list child :=
   end.
 Definition to_paragraph (p : para) (rs : list region) : list region * outp :=
   let '(rs', rid) := get_region p rs in
-  (rs', mkO (p_id p) (p_begin p) (p_end p) rid (p_align p) (p_style p =? sPaintOn) (para_children (ksort (p_lines p)) None)).
+  (rs', mkO (p_id p) (p_begin p) (p_end p) rid (p_align p) (p_style p =? sPaintOn) (para_children (ksort (p_lines p)) None)
+            (para_origin p)).
 
 (* ------------------------------------------------------------------ SccContext *)
 Record ctx := mkC {
